@@ -290,6 +290,15 @@ pub struct App; impl DelegateTr<Self> for App { type Target = Target; }
 pub fn run() {}
 """
 
+KNOWN_PIN3_SRC = """
+#[::entrait::entrait(TrImpl, delegate_by = DelegateTr)] /*@inv*/
+pub trait Tr { fn pick(&self, other: &str) -> &str; }
+pub struct Target;
+#[::entrait::entrait]
+impl TrImpl for Target { fn pick<'a, D>(deps: &'a D, other: &str) -> &'a str { "n" } }
+pub fn run() {}
+"""
+
 KNOWN_PIN_SRC = """
 #[::entrait::entrait(TrImpl, delegate_by = ref)] /*@inv*/
 pub trait Tr { fn name<'a>(&'a self) -> &'a str; }
@@ -320,14 +329,15 @@ def run(tier, seed):
     pin2 = Case("c07known_typed_receiver", KNOWN_PIN2_SRC, meta={"pin": "typed_receiver_with_target"})
     st = selftest.case("selftest_c07")
     ws = core.Workspace(PROP, "x", deps=("async-trait",))
-    ws.extend(cases + [st, pin, pin2])
+    pin3 = Case("c07known_elided_return_lifetime", KNOWN_PIN3_SRC, meta={"pin": "elided_return_lifetime_static"})
+    ws.extend(cases + [st, pin, pin2, pin3])
     ws.write()
     b = ws.build()
     ws.run(b["exes"])
     selftest.verify(st)
     for c in cases:
         check_case(c, rep)
-    for pn in (pin, pin2):
+    for pn in (pin, pin2, pin3):
         if pn.removed is not None:
             d = (pn.removed["diags"] or [{}])[0]
             rep.violation(pn.id, "compile:%s:%s" % (d.get("code"), d.get("message", "")[:70]), "does not compile: %s" % d.get("message", "")[:300],
